@@ -470,7 +470,7 @@ def gen(tier, rng, shard, nshards):
                 yield c
 
     # ---- ff: corruptions of key, checksum and configuration bytes
-    ncorr = 240 if thorough else 40
+    ncorr = 480 if thorough else 40
     for ci in range(ncorr):
         if not mine():
             continue
@@ -527,7 +527,7 @@ def gen(tier, rng, shard, nshards):
             yield c
 
     # ---- ff: decoy area (bad checksum) in front of the real one; marker too close to the start; truncated areas
-    for di in range(36 if thorough else 12):
+    for di in range(72 if thorough else 12):
         if not mine():
             continue
         key = make_key(rng, rng.choice([4, 15, 30]))
@@ -577,7 +577,7 @@ def gen(tier, rng, shard, nshards):
     # so the key is the *second* entry of most_common(2) and only yielded because of `>=`.  (Without the header gram the
     # weak checksum cannot tell the two candidates apart: moving a block by a multiple of 3 bytes keeps it.)
     # Three units: the key is third and never yielded at that length.
-    for ti in range(12 if thorough else 4):
+    for ti in range(24 if thorough else 4):
         if not mine():
             continue
         three = ti % 2 == 1
@@ -598,7 +598,7 @@ def gen(tier, rng, shard, nshards):
             yield c
 
     # ---- ffx: the same through an XorEncoded container (optional path `fxor = XorEncodedFile.from_file(fobj)`)
-    for xi in range(24 if thorough else 5):
+    for xi in range(48 if thorough else 5):
         if not mine():
             continue
         key = make_key(rng, rng.choice([2, 9, 15, 16, 64, 256]))
@@ -632,7 +632,7 @@ def gen(tier, rng, shard, nshards):
             yield "wb", f"wb {C.hx(pre + ar + filler(rng, rng.choice([0, 6])))} {buf}"
 
     # ---- scan: crafted small payloads, other xor keys, short blocks at EOF, unknown options
-    nscan = 160 if thorough else 40
+    nscan = 320 if thorough else 40
     for si in range(nscan):
         if not mine():
             continue
@@ -640,7 +640,7 @@ def gen(tier, rng, shard, nshards):
         yield "scan", f"scan {C.hx(scan_payload(rng, si, gkey))} {C.hx(gkey)}"
 
     # ---- cands: small alphabets (ties), sizes around chunk boundaries
-    ncand = 300 if thorough else 60
+    ncand = 600 if thorough else 60
     for ci in range(ncand):
         if not mine():
             continue
@@ -666,7 +666,7 @@ def gen(tier, rng, shard, nshards):
         yield "cands", f"cands {C.hx(bx(cfg, make_key(rng, rng.randrange(2, 257))))} {rng.choice([8192, 4096])}"
 
     # ---- cks
-    for ci in range(200 if thorough else 40):
+    for ci in range(400 if thorough else 40):
         if not mine():
             continue
         n = rng.choice([0, 1, 2, 3, 4, 5, 6, 7, 100, 1000, 6144])
